@@ -18,6 +18,7 @@
 -/
 import Hv.Storage.WriterLemmas
 import Hv.Storage.SpecLemmas
+import Hv.Storage.OverflowLemmas
 import Hv.Basic.Verdict
 
 namespace Hv.C01
@@ -187,6 +188,31 @@ theorem not_holds_of_noDelete (cfg : Cfg) (h : cfg.deleteRemoves = false) : ¬ H
     injection hload with h1; injection h1
   simp [replay, applyEntry, h, specOf, specStep, opDelete, opInsert, opUpdate, Index.put, Index.del] at this
 
+/-- a buffer that does not flush at 65535 entries: 65536 eight-byte inserts of the same key into
+    one 1 MiB block are acknowledged, and after `Close` the record is gone (or the file unreadable) -/
+theorem writesOf_overflow (N : Nat) : ∀ e ∈ writesOf (overflowOpsN N), e = tiny := by
+  unfold overflowOpsN
+  induction N with
+  | zero => intro e he; simp [writesOf] at he
+  | succ n ih => intro e he; simp only [List.replicate_succ, List.cons_append, writesOf, List.mem_cons] at he; rcases he with h | h; exact h; exact ih e h
+
+theorem not_holds_of_noCountFlush (cfg : Cfg) (h : cfg.flushAtCount = false) : ¬ Holds cfg := by
+  intro hh
+  obtain ⟨N, hN, hN0, hmod, hfit⟩ : ∃ N : Nat, N = 65535 + 1 ∧ 0 < N ∧ N % 2 ^ 16 = 0 ∧ N * 8 < 1048576 :=
+    ⟨65536, by decide, by decide, by decide, by decide⟩
+  obtain ⟨fl, n, hfl, hload⟩ := hh.replays idCodec crc0 1048576 [] 0 (overflowOpsN N) (by decide) (by decide)
+    (by intro e he; rw [writesOf_overflow N e he]; decide)
+  have hpend : (runOps cfg idCodec crc0 1048576 (createFile [] 0) (overflowOpsN N)).pending = [] :=
+    pending_after_close cfg idCodec crc0 1048576 _ _
+  have hacc : accepted cfg true (overflowOpsN N) = List.replicate N tiny := by
+    unfold overflowOpsN
+    rw [accepted_tiny]; simp [accepted, acceptedBy]
+  rw [hpend, List.append_nil, hacc] at hfl
+  subst hfl
+  rw [hN, specOf_tiny] at hload
+  rw [← hN] at hload
+  exact overflow_load_gen cfg h idCodec crc0 N hN0 hmod hfit [] n hload
+
 /-! ### Decision over the extracted facts -/
 
 /-- which write of `flushLocked` comes first, second, third -/
@@ -234,14 +260,14 @@ def hasUnknown (f : Facts) : Bool :=
 def findings (f : Facts) : List String :=
   (if f.rejectsEmptyKey == .no then ["C01-empty-key-accepted"] else []) ++
   (if f.rejectsLongKey == .no then ["C01-long-key-accepted"] else []) ++
-  (if f.deleteRemoves == .no then ["C01-delete-not-replayed"] else [])
+  (if f.deleteRemoves == .no then ["C01-delete-not-replayed"] else []) ++
+  (if f.flushAtCount == .no then ["C01-block-entry-count-overflow"] else [])
 
 def classify (f : Facts) : Verdict :=
   if !layoutOk f then .undetermined "storage layout facts (field widths / flush order / metadata handling) differ from the model"
   else if hasUnknown f then .undetermined "a WriteEntry / WriteBuffer.Add / LoadIndex pattern was not recognised"
   else if !(findings f).isEmpty then .violated (findings f)
-  else if f.flushAtCount == .yes then .holds
-  else .undetermined "C01-block-entry-count-overflow: no flush at 65535 buffered entries (block sizes above 524272 bytes wrap the 16-bit count)"
+  else .holds
 
 /-- the `_partial` statement attached to a `violated` verdict -/
 def Partial (f : Facts) : Prop := f.deleteRemoves = .yes → HoldsPartial (cfgOf f)
@@ -261,27 +287,26 @@ theorem classify_sound (f : Facts) : (classify f).Sound (Holds (cfgOf f)) (Parti
       split
       · rename_i hf
         refine ⟨?_, hpart⟩
-        simp only [findings, List.isEmpty_iff, Bool.not_eq_true', List.append_eq_nil_iff, not_and] at hf
         by_cases h1 : f.rejectsEmptyKey = .no
         · exact not_holds_of_acceptsEmptyKey _ (by simp [cfgOf, h1, Tri.isYes])
         · by_cases h2 : f.rejectsLongKey = .no
           · exact not_holds_of_acceptsLongKey _ (by simp [cfgOf, h2, Tri.isYes])
           · by_cases h3 : f.deleteRemoves = .no
             · exact not_holds_of_noDelete _ (by simp [cfgOf, h3, Tri.isYes])
-            · exfalso
-              simp [findings, h1, h2, h3] at hf
+            · by_cases h4 : f.flushAtCount = .no
+              · exact not_holds_of_noCountFlush _ (by simp [cfgOf, h4, Tri.isYes])
+              · exfalso
+                simp [findings, h1, h2, h3, h4] at hf
       · rename_i hf
-        split
-        · rename_i hc
-          simp only [beq_iff_eq] at hc
-          have h1 : f.rejectsEmptyKey = .yes := by
-            cases h : f.rejectsEmptyKey <;> simp_all [findings]
-          have h2 : f.rejectsLongKey = .yes := by
-            cases h : f.rejectsLongKey <;> simp_all [findings]
-          have h3 : f.deleteRemoves = .yes := by
-            cases h : f.deleteRemoves <;> simp_all [findings]
-          exact holds_of_good _ ⟨by simp [cfgOf, h1, Tri.isYes], by simp [cfgOf, h2, Tri.isYes],
-            by simp [cfgOf, h3, Tri.isYes], by simp [cfgOf, hc, Tri.isYes]⟩
-        · trivial
+        have h1 : f.rejectsEmptyKey = .yes := by
+          cases h : f.rejectsEmptyKey <;> simp_all [findings]
+        have h2 : f.rejectsLongKey = .yes := by
+          cases h : f.rejectsLongKey <;> simp_all [findings]
+        have h3 : f.deleteRemoves = .yes := by
+          cases h : f.deleteRemoves <;> simp_all [findings]
+        have h4 : f.flushAtCount = .yes := by
+          cases h : f.flushAtCount <;> simp_all [findings]
+        exact holds_of_good _ ⟨by simp [cfgOf, h1, Tri.isYes], by simp [cfgOf, h2, Tri.isYes],
+          by simp [cfgOf, h3, Tri.isYes], by simp [cfgOf, h4, Tri.isYes]⟩
 
 end Hv.C01
